@@ -3,20 +3,31 @@ SPEC = dict(
     prop="C08",
     proof_module="SimbodyProofs.C08",
     sources=["SimbodyModel/Proto.lean", "SimbodyModel/C08.lean", "SimbodyProofs/C08.lean", "Drivers/C08.lean"],
-    n=dict(quick=150, thorough=3000),
+    n=dict(quick=300, thorough=6000),
     modes=["", "testcc", "degenerate"],
     rtol=1e-9, atol=1e-12,
-    rule="case = random tree (2-6 bodies, 13 mobilizer types), 1-6 constraints drawn from the 19 built-in types + a "
-         "homogeneous linear SpeedCoupler, 20% exact duplicates (redundant but consistent), each enabled with prob. 3/4 "
+    rule="case = random tree (2-6 bodies, 18 mobilizer types, reversed with prob. 1/4), 1-6 constraints drawn from the 19 built-in types + a "
+         "homogeneous linear SpeedCoupler, 20% exact duplicates and, hung on Welds, geometric redundancy (Ball / PointInPlane at the weld "
+         "frame origin, a second Weld through a shifted frame pair), each enabled with prob. 3/4 "
          "(Constraint::disable), gravity + random body/mobility forces, random violated state or (50%) the state projected "
          "onto the manifold; records: loopFD (udot, multipliers vs the Lean model on exported M, G, f, b), power, and the "
          "implementation-only predicates newton / udoterr / disabled / power; mode testcc = TestCustomConstraints::"
          "testSpeedCoupler2 scenario; mode degenerate = two fixed systems whose constraints act between bodies without relative "
          "mobility (finding zeroG.newton); distinct = distinct input records",
-    partial="the rank decision of the multiplier solve (LAPACK QTZ with conditioning tolerance m*eps^(3/4)) is not modelled: "
-            "pinv is a parameter with the generalized-inverse contract; cases with an ambiguous singular-value gap of G "
-            "(1e-12 < s_i/s_1 < 1e-6) are tagged illcond and only Newton's law is checked on them; M^-1 is the exported "
-            "dense mass matrix (operator agreement is C01/C02)",
+    partial="clause by clause: (1) acceleration constraints satisfied: PROVED about the executed loopFD for every consistent set in the "
+            "property's own sense b in range(G), redundant or not (constraints_satisfied_of_range_G: M^-1 definite, pinv a generalized "
+            "inverse of G M^-1 ~G on its range) + predicate udoterr on sets an independent SVD finds consistent with a clear rank gap; "
+            "(2) Newton's law with multipliers: PROVED (no assumption on pinv) + predicate newton; (3) disabled constraints: PROVED "
+            "about the executed assembly filter (disabled_no_effect: deleting a disabled row anywhere changes nothing; "
+            "disabled_data_irrelevant) and EXERCISED by the loopFDmask records (model assembles the enabled rows of the full "
+            "constraint matrix itself) + twin-system predicates; (4) workless power: algebra PROVED (power_eq, a corollary of "
+            "dot_tmulVec; calcConstraintPower's per-constraint F.V + f.u summation is tied by the power records, not modelled) + "
+            "predicate on on-manifold cases whose enabled constraints are all workless, and mode testcc on the exact trajectory of "
+            "the baseline's failing test.  NOT modelled: the rank decision of the multiplier solve (LAPACK QTZ with conditioning "
+            "tolerance m*eps^(3/4)): pinv is a parameter with the generalized-inverse contract; cases with an ambiguous "
+            "singular-value gap of G (1e-12 < s_i/s_1 < 1e-6) are tagged illcond and only Newton's law is checked on them; M^-1 is the "
+            "exported dense mass matrix (operator agreement is C01/C02); the loopFD records use M, G, f, b exported from the "
+            "implementation, so they add to the predicates only the check that udot/lambda are THE solution of that system",
     assumptions=["minv is a linear right inverse of M (C01/C02); pinv satisfies A A+ A = A on range(A)",
                  "consistency of a constraint set is decided independently of the implementation by an SVD of calcG (LAPACK trusted)",
                  "calcConstraintPower = -<~G lambda, u> by virtual work (C07 force_adjoint, C04)"],
